@@ -203,6 +203,12 @@ func (w *witnessRun) build(q *witnessReq) ([]byte, []tlog.Hash) {
 	if q.Root == "garbage" {
 		root = witnessGarbageHash(w.r)
 	}
+	if q.Root == "recorded" {
+		// a misbehaving log signs, for the size it claims, the root the witness has on record (for another size)
+		if _, rr, ok := witnessSizeOf(w.lockValue(origin)); ok {
+			root = rr
+		}
+	}
 	// proof
 	var proof []tlog.Hash
 	switch q.Proof {
@@ -466,6 +472,10 @@ func (w *witnessRun) expect(in *witnessInst, q *witnessReq, plan witnessPlan, pr
 	}
 	tree := w.forks[q.Log][q.Branch]
 	good := q.Root == "right"
+	if q.Root == "recorded" {
+		// the recorded root is the right root exactly for the recorded size on the recorded branch
+		good = int64(q.Size) == vn && vroot == tree.root(q.Size)
+	}
 	if q.Old == 0 {
 		// the empty-proof rule: every tree extends the empty tree, whatever its root
 		good = len(proof) == 0
@@ -943,6 +953,32 @@ func (w *witnessRun) famPairs(old, size int) {
 	w.do(in, witnessGood(0, 0, size, size), witnessOKPlan())
 }
 
+// famCrafted: a misbehaving log that states an old size other than the recorded one together with a checkpoint made to
+// fit it: the recorded root under a smaller (or the stated) size, so that "old tree = recorded root" holds trivially.
+func (w *witnessRun) famCrafted(a, b int) {
+	in := w.start()
+	w.do(in, witnessGood(0, 0, 0, a), witnessOKPlan())
+	w.do(in, witnessGood(0, 0, a, b), witnessOKPlan())
+	for _, old := range []int{a, 1, b - 1, b + 1} {
+		if old < 0 {
+			continue
+		}
+		// size = stated old size, root = the recorded root, empty proof
+		q := witnessGood(0, 0, old, old)
+		q.Root = "recorded"
+		w.do(in, q, witnessOKPlan())
+		// … and stretched to the recorded size
+		if old < b {
+			q2 := witnessGood(0, 0, old, b)
+			q2.Root = "recorded"
+			q2.Proof = "empty"
+			w.do(in, q2, witnessOKPlan())
+		}
+	}
+	// nothing of this may have changed what is on record
+	w.do(in, witnessGood(0, 0, b, b+2), witnessOKPlan())
+}
+
 // famSigs: signature and checkpoint-text variants at a fixed step.
 func (w *witnessRun) famSigs(old, size int) {
 	in := w.start()
@@ -1396,6 +1432,7 @@ func witnessCasesFor(o *Opts) []witnessCase {
 	add("pairs", len(witnessPairList(wide)))
 	add("sigs", 12)
 	add("zero", 6)
+	add("crafted", 4)
 	add("bodies", 8)
 	add("faults", len(witnessFaultList()))
 	add("zombie", 10)
@@ -1468,6 +1505,9 @@ func witnessRunCase(c witnessCase, tr *Trace, st *Stats) []OracleFailure {
 	case "sigs":
 		w = witnessNewRun(c, tr, st, 2, 40, c.Idx%2 == 1)
 		w.famSigs(c.Idx%5, 5+c.Idx)
+	case "crafted":
+		w = witnessNewRun(c, tr, st, 1, 40, false)
+		w.famCrafted(3+c.Idx, 5+c.Idx*2)
 	case "zero":
 		w = witnessNewRun(c, tr, st, 1, 20, false)
 		w.famZero(1 + c.Idx*3)
